@@ -84,6 +84,17 @@ func genC04(r *rng, tier string) *Case {
 		text = text[:65536]
 	}
 	g := GenCfg{Kind: kind, Comments: r.chance(0.5), Comfort: r.chance(0.3), NoOpt: r.chance(0.7)}
+	if r.chance(0.3) {
+		g.KW = r.rangeInt(1, 4)
+		// let the text use the words and symbols of that configuration now and then
+		if len(text) > 0 && len(text) < maxLen-64 {
+			for k := r.rangeInt(0, 3); k > 0; k-- {
+				i := r.intn(len(text) + 1)
+				w := pick(r, " and ", " or ", " mod ", " is ", " plus ", " x ", " less ", "not ", " then ", "<=>", "**", "->>", "=>", "..", "&&", "|||", "<-", "-->", "!==", ":=", " in ", " e0 ")
+				text = append(text[:i:i], append([]byte(w), text[i:]...)...)
+			}
+		}
+	}
 	sim, _ := genSim(r, false, false)
 	c := &Case{Class: kind + "/" + class, Sim: sim,
 		Script: &Script{Gens: []GenCfg{g}, Setup: []Op{{Kind: "gen", TextB: text, ArgNames: []string{"a", "b"}}}, NFn: 1}}
@@ -815,6 +826,9 @@ func genC12(r *rng, tier string) *Case {
 			class = "trailing"
 		}
 		g := GenCfg{Kind: kind, Comments: r.chance(0.5), Comfort: r.chance(0.3), NoOpt: r.chance(0.3)}
+		if r.chance(0.25) {
+			g.KW = r.rangeInt(1, 4)
+		}
 		sim, _ := genSim(r, false, false)
 		rep := 1
 		if r.chance(0.2) {
